@@ -133,9 +133,9 @@ def scaled_parameters(
         for param in group["params"]:
             # Careful not to overwrite `lr` or `weight_decay`
             param_lr = group["lr"]
+            if isinstance(param_lr, Tensor):
+                param_lr = param_lr.clone()
             if has_parameter_data(param):  # type: ignore[arg-type]
-                if isinstance(param_lr, Tensor):
-                    param_lr = param_lr.clone()
                 param_lr *= lr_scale_func(param)  # type: ignore[operator]
             elif not allow_non_unit_scaling_params:
                 raise ValueError(
